@@ -12,7 +12,8 @@ the case after the one in progress, classifies what happened to that case with a
 per-check crash policy, matches violation signatures against
 known_findings.json, writes replay files and the evidence file.
 """
-import json, os, subprocess, sys, time, hashlib, signal, shutil, threading
+import json
+import re, os, subprocess, sys, time, hashlib, signal, shutil, threading
 from concurrent.futures import ThreadPoolExecutor
 
 VERIF = os.path.dirname(os.path.dirname(os.path.abspath(__file__)))
@@ -231,8 +232,16 @@ def run_range(argv, lo, hi, *, engine="", env=None, case_timeout=60.0, crash_pol
     return cases
 
 
-def fan_out(argv, ncases, *, jobs=None, shard=None, **kw):
-    """Split [0,ncases) into shards and run them in parallel."""
+TIMING_SIG = re.compile(r"returns-late|far-too-late|not-prompt|timed-out|did-not-wake|one-after-another|starved|never-returned|never-finished|did-not-finish"
+                        r"|waited-for|too-late|never-preempted|slept-out|waits-out|not-settled-promptly|completion-lost|never-ran|process-hung")
+
+
+def fan_out(argv, ncases, *, jobs=None, shard=None, confirm_timing=False, **kw):
+    """Split [0,ncases) into shards and run them in parallel.
+
+    confirm_timing: a violation whose signature says "too late / never came back" can be produced by a machine that is
+    busy with the other shards (or with anything else). Such a case is run again, alone and twice, after the parallel
+    phase; it stays a violation only if it fails with the same signature both times, otherwise it becomes inconclusive."""
     jobs = jobs or NCPU
     shard = shard or max(1, (ncases + jobs - 1) // jobs)
     ranges = [(a, min(ncases, a + shard)) for a in range(0, ncases, shard)]
@@ -241,6 +250,28 @@ def fan_out(argv, ncases, *, jobs=None, shard=None, **kw):
         futs = [ex.submit(run_range, argv, a, b, **kw) for a, b in ranges]
         for f in futs:
             out.extend(f.result())
+    if confirm_timing:
+        known = {k["signature"] for k in load_known() if k.get("status") == "known"}
+        suspects = [c for c in out if c.verdict == "violated" and TIMING_SIG.search(c.sig or "") and c.sig not in known]
+        for c in suspects[:12]:
+            again = []
+            for _ in range(2):
+                r = run_range(argv, c.idx, c.idx + 1, **kw)
+                again.append(r[0] if r else None)
+                if not (again[-1] and again[-1].verdict == "violated" and again[-1].sig == c.sig):
+                    break
+            if len(again) == 2 and all(a and a.verdict == "violated" and a.sig == c.sig for a in again):
+                c.detail = (c.detail or "") + " [reproduced twice when run alone]"
+            else:
+                last = again[-1]
+                c.detail = f"first run: {c.sig}: {c.detail}; rerun alone: {last.verdict if last else 'no record'} {last.sig if last else ''}"
+                c.verdict, c.sig, c.nontrivial = "inconclusive", "timing-violation-not-reproduced-when-rerun-alone", False
+        for c in suspects[12:]:
+            # more late cases than can be rerun: they share the fate of the rerun sample with the same signature
+            same = [d for d in suspects[:12] if d.detail and d.detail.startswith("first run: " + c.sig)]
+            if same:
+                c.detail = f"first run: {c.sig}: {c.detail}; not rerun, the rerun sample with this signature did not reproduce"
+                c.verdict, c.sig, c.nontrivial = "inconclusive", "timing-violation-not-reproduced-when-rerun-alone", False
     return out
 
 
